@@ -26,6 +26,11 @@ def run(ctx, rep):
     co = tables.compile_operator_map(ctx)['map']
     n = 0
     for (op, scope), fused in sorted(fm['map'].items()):
+        if not isinstance(fused, str) and scope == 'Local':
+            # more than one instruction sequence for one (operator, scope): which one is taken depends on something else (the
+            # literal's value, ...), so the fused form is no longer a function of the operator alone
+            rep.bad('R10.1', fm['fn'].path, 'Operator::%s' % op, 'for a local variable this operator selects several different instruction sequences: %s' % (fused,), fm['fn'].loc())
+            continue
         if not isinstance(fused, str) or fused.startswith('<'):
             if scope == 'Global':
                 rep.ob(fused == '<fallback>', 'R10.3', fm['fn'].path, '(%s, Global)' % op, 'no fused (frame-slot) opcode is chosen for a global symbol: %s' % (fused,), fm['fn'].loc())
